@@ -28,7 +28,8 @@ class TLCResult:
         self.distinct = 0
         self.depth = 0
         self.violations = []      # list of dicts: kind, name, trace(text)
-        self.printed = []         # decoded JSON objects printed with PrintT(ToJson(..))
+        self.lines = []           # raw PrintT(ToJson(..)) output lines
+        self._printed = None
         self.wall_s = 0.0
         self.coverage = {}        # action name -> (distinct, total)
         self.cmd = ''
@@ -37,6 +38,25 @@ class TLCResult:
     @property
     def ok(self):
         return not self.violations
+
+    @property
+    def printed(self):
+        """decoded JSON objects printed with PrintT(ToJson(..)) (decoded on demand)"""
+        if self._printed is None:
+            out = []
+            for l in self.lines:
+                try:
+                    out.append(json.loads(json.loads(l)))
+                except ValueError:
+                    pass
+            self._printed = out
+        return self._printed
+
+    @printed.setter
+    def printed(self, v):
+        self._printed = v
+        if v is None:
+            self.lines = []
 
 
 def make_cfg(constants=None, init='Init', next_='Next', spec=None,
@@ -52,8 +72,10 @@ def make_cfg(constants=None, init='Init', next_='Next', spec=None,
     if constants:
         lines.append('CONSTANTS')
         for k, v in constants.items():
-            lines.append('  %s %s' % (k, v) if v.startswith('<-')
-                         else '  %s = %s' % (k, v))
+            # every constant is defined in the generated MC module (cfg files cannot
+            # express tuples / sets of tuples)
+            lines.append('  %s <- MC_%s' % (k, k))
+        lines.append('\\* MCDEFS ' + json.dumps(constants))
     for i in invariants:
         lines.append('INVARIANT %s' % i)
     for p in properties:
@@ -116,6 +138,18 @@ def run(module, cfg_text, *, workers=None, simulate=None, depth=None, seed=None,
         for f in os.listdir(specs_dir):
             if f.endswith('.tla'):
                 shutil.copy(os.path.join(specs_dir, f), work)
+        defs = None
+        for line in cfg_text.splitlines():
+            if line.startswith('\\* MCDEFS '):
+                defs = json.loads(line[len('\\* MCDEFS '):])
+        if defs is not None:
+            mc = 'MC' + module
+            with open(os.path.join(work, mc + '.tla'), 'w') as fh:
+                fh.write('---- MODULE %s ----\nEXTENDS %s\n' % (mc, module))
+                for k, v in defs.items():
+                    fh.write('MC_%s == %s\n' % (k, v))
+                fh.write('====\n')
+            module = mc
         cfg = os.path.join(work, module + '.cfg')
         with open(cfg, 'w') as fh:
             fh.write(cfg_text)
@@ -175,14 +209,7 @@ def _tail(out, n=60):
 def _parse(res):
     out = res.out
     lines = out.splitlines()
-    printed = []
-    for l in lines:
-        if l.startswith('"{') or l.startswith('"['):
-            try:
-                printed.append(json.loads(json.loads(l)))
-            except ValueError:
-                pass
-    res.printed = printed
+    res.lines = [l for l in lines if l.startswith('"{') or l.startswith('"[')]
     m = None
     for m in _STAT.finditer(out):
         pass
@@ -215,7 +242,7 @@ def _parse(res):
                 kind, name = 'postcondition', 'postcondition'
         if kind:
             trace = []
-            for l2 in lines[i + 1:i + 400]:
+            for l2 in lines[i + 1:i + 20000]:
                 if l2.startswith(('Finished in', 'The number of states', 'Progress')) or _STAT.search(l2):
                     break
                 if l2.startswith(('Invariant ', 'Action property ')) and 'is violated' in l2:
@@ -257,13 +284,75 @@ def canon(o):
 
 
 class Graph:
-    """Labelled transition graph reconstructed from EmitEdge / EmitInit output."""
+    """Labelled transition graph reconstructed from EmitEdge / EmitInit output.
+    Nodes are small integers; state[n] is the projected state (dict)."""
 
     def __init__(self):
-        self.inits = []           # canonical keys
-        self.state = {}           # key -> projected state (dict)
-        self.out = {}             # key -> list of (act(dict), key_to)
+        self.inits = []           # node ids
+        self.state = []           # id -> projected state (dict)
+        self.out = []             # id -> list of (act(dict), id_to)
         self.n_edges = 0
+        self._ids = {}
+
+    def node(self, st):
+        k = canon(st)
+        n = self._ids.get(k)
+        if n is None:
+            n = self._ids[k] = len(self.state)
+            self.state.append(st)
+            self.out.append([])
+        return n
+
+    @classmethod
+    def from_lines(cls, lines):
+        """Fast path: split each emitted edge into its raw from/act/to substrings and
+        parse every distinct state only once."""
+        g = cls()
+        ids = {}
+        seen_edges = set()
+
+        cids = {}
+
+        def node(raw):
+            n = ids.get(raw)
+            if n is None:
+                # TLC prints freshly built records un-normalised (field order as written)
+                # and stored ones sorted: identify by canonical form, remember both spellings
+                st = json.loads(raw)
+                k = canon(st)
+                n = cids.get(k)
+                if n is None:
+                    n = cids[k] = len(g.state)
+                    g.state.append(st)
+                    g.out.append([])
+                ids[raw] = n
+            return n
+        for l in lines:
+            try:
+                inner = json.loads(l)
+            except ValueError:
+                continue
+            if inner.startswith('{"init":'):
+                n = node(inner[8:-1])
+                if n not in g.inits:
+                    g.inits.append(n)
+                continue
+            if not inner.startswith('{"from":'):
+                continue
+            ia = inner.find(',"act":{"name":')
+            it = inner.find(',"to":{', ia)
+            il = inner.rfind(',"lvl":')
+            if ia < 0 or it < 0 or il < 0:
+                raise ValueError('unexpected edge line: ' + inner[:200])
+            fr, ac, to = inner[8:ia], inner[ia + 7:it], inner[it + 6:il]
+            nf, nt = node(fr), node(to)
+            ek = (nf, ac, nt)
+            if ek in seen_edges:
+                continue
+            seen_edges.add(ek)
+            g.out[nf].append((json.loads(ac), nt))
+            g.n_edges += 1
+        return g
 
     @classmethod
     def from_printed(cls, printed):
@@ -271,70 +360,89 @@ class Graph:
         seen_edges = set()
         for o in printed:
             if 'init' in o:
-                k = canon(o['init'])
-                if k not in g.state:
-                    g.state[k] = o['init']
-                    g.out.setdefault(k, [])
-                if k not in g.inits:
-                    g.inits.append(k)
+                n = g.node(o['init'])
+                if n not in g.inits:
+                    g.inits.append(n)
             elif 'from' in o:
-                kf, kt = canon(o['from']), canon(o['to'])
-                g.state.setdefault(kf, o['from'])
-                g.state.setdefault(kt, o['to'])
-                g.out.setdefault(kf, [])
-                g.out.setdefault(kt, [])
-                ek = (kf, canon(o['act']), kt)
+                nf, nt = g.node(o['from']), g.node(o['to'])
+                ek = (nf, canon(o['act']), nt)
                 if ek in seen_edges:
                     continue
                 seen_edges.add(ek)
-                g.out[kf].append((o['act'], kt))
+                g.out[nf].append((o['act'], nt))
                 g.n_edges += 1
+        g._ids = None
         return g
 
     def bfs_tree(self):
-        """parent[k] = (parent key, act) for every reachable k; inits map to None."""
+        """parent[n] = (parent id, act) for every reachable n; inits map to None."""
+        from collections import deque
         parent = {}
         order = []
-        from collections import deque
         dq = deque()
-        for k in self.inits:
-            parent[k] = None
-            dq.append(k)
+        for n in self.inits:
+            parent[n] = None
+            dq.append(n)
         while dq:
-            k = dq.popleft()
-            order.append(k)
-            for act, kt in self.out[k]:
-                if kt not in parent:
-                    parent[kt] = (k, act)
-                    dq.append(kt)
+            n = dq.popleft()
+            order.append(n)
+            for act, nt in self.out[n]:
+                if nt not in parent:
+                    parent[nt] = (n, act)
+                    dq.append(nt)
         return parent, order
 
-    def path_to(self, parent, k):
+    def path_to(self, parent, n):
         acts = []
-        while parent[k] is not None:
-            pk, act = parent[k]
-            acts.append((act, k))
-            k = pk
+        while parent[n] is not None:
+            pn, act = parent[n]
+            acts.append((act, n))
+            n = pn
         acts.reverse()
-        return k, acts   # init key, [(act, key after act)]
+        return n, acts   # init id, [(act, id after act)]
 
 
 def behaviours_from_printed(printed):
-    """Simulation mode: split the chain of emitted edges into behaviours.
+    """Simulation mode: rebuild the behaviours from the emitted edges.
 
-    Each edge carries lvl (TLCGet("level") of the source state)."""
-    behs, cur = [], None
+    Each edge carries lvl (TLCGet("level") of its source state).  The simulator evaluates
+    the action constraint on several candidate successors of the same state and then
+    takes one of them, so there may be several edges per level; the one taken is the one
+    whose target is the source of the next level."""
+    behs_levels, cur = [], None
     for o in printed:
         if 'from' not in o:
             continue
         lvl = o.get('lvl')
-        if cur and cur[-1] == o:
-            continue      # the simulator sometimes evaluates the action constraint twice
-        if cur is None or lvl == 1 or (cur and canon(cur[-1]['to']) != canon(o['from'])):
+        if cur is None or lvl < cur[-1][0]['lvl'] or (lvl == 1 and cur[-1][0]['lvl'] != 1):
             if cur:
-                behs.append(cur)
-            cur = []
-        cur.append(o)
+                behs_levels.append(cur)
+            cur = [[o]]
+        elif lvl == cur[-1][0]['lvl']:
+            cur[-1].append(o)
+        else:
+            cur.append([o])
     if cur:
-        behs.append(cur)
+        behs_levels.append(cur)
+    behs = []
+    for levels in behs_levels:
+        chosen = [None] * len(levels)
+        nxt_from = None
+        ok = True
+        for k in range(len(levels) - 1, -1, -1):
+            cands = levels[k]
+            if nxt_from is None:
+                c = cands[-1]
+            else:
+                c = next((x for x in cands if canon(x['to']) == nxt_from), None)
+                if c is None:
+                    ok = False
+                    break
+            chosen[k] = c
+            nxt_from = canon(c['from'])
+        if ok and chosen and chosen[0]['lvl'] == 1:
+            behs.append(chosen)
+        elif not ok:
+            # keep the consistent suffix-free prefix: levels before the break are unusable
+            pass
     return behs
